@@ -1,5 +1,5 @@
 ------------------------------- MODULE GenObj -------------------------------
-(* A box OBJECT under a history of in-place operations (properties C08, C15):  *)
+(* A box OBJECT under a history of in-place operations (properties C08, C14, C15, C19): *)
 (* gen_vertices (fills the vertex cache), a quarter turn in place, a move, a    *)
 (* resize, clone.  The properties speak about "any two boxes": intersection,    *)
 (* IoU and exclusively-owned shares are functions of the boxes' CURRENT          *)
@@ -23,10 +23,16 @@ Spec == Init /\ [][Next]_<<box, ops, probe>>
 RECURSIVE SetToSeqV(_)
 SetToSeqV(S) == IF S = {} THEN <<>> ELSE LET v == CHOOSE y \in S : TRUE IN <<v>> \o SetToSeqV(S \ {v})
 PJ(b) == [x |-> b.x, y |-> b.y, w |-> b.w, h |-> b.h, k |-> b.k]
+(* non-maximum suppression over the object and the probe (C14): a function of the current geometry as well *)
+N == INSTANCE Nms
+Dets(objHigher) == <<[box |-> PJ(box), score |-> IF objHigher THEN 200 ELSE 100], [box |-> PJ(probe), score |-> IF objHigher THEN 100 ELSE 200]>>
+NmsCases == {[hi |-> IF oh THEN 1 ELSE 0, thr |-> t, out |-> N!Nms(Dets(oh), t, N!NoScore)] :
+               oh \in BOOLEAN, t \in {tt \in {<<3, 10>>, <<7, 10>>} : ~N!KnifeEdge(Dets(TRUE), tt, N!NoScore)}}
 Emit == Len(ops) = D =>
   PrintT(<<"REPLAY", ToJson([kind |-> "boxobj", ops |-> ops, final |-> PJ(box), probe |-> PJ(probe),
                               inter16 |-> Inter16(box, probe), union16 |-> Union16(box, probe), area16 |-> Area16(box),
                               verts |-> SetToSeqV(Vertices(box)),
                               own |-> <<Own(<<box, probe>>, 1), Own(<<box, probe>>, 2)>>,
-                              cells |-> <<Cardinality(Cells(box)), Cardinality(Cells(probe))>>])>>)
+                              cells |-> <<Cardinality(Cells(box)), Cardinality(Cells(probe))>>,
+                              nms |-> SetToSeqV(NmsCases)])>>)
 =============================================================================
